@@ -653,6 +653,7 @@ def run(ctx, led):
     run_rule(led, "U17", "learned nogood ordered by trail position, backjump level = level of the second predicate, loop bound per analysis mode", u17, ctx)
     from . import minimiser
     run_rule(led, "U18", "semantic minimiser: every folding step maps the values a record stands for to exactly those satisfying the folded predicate (decided on all records of a 5-value window)", minimiser.steps_exact, ctx)
+    run_rule(led, "U28", "SCRATCH-RESET: the semantic minimiser starts every call with empty scratch vectors", minimiser.scratch_reset, ctx)
     run_rule(led, "U19", "semantic minimiser: the emitted predicates describe the record exactly relative to the root domain; holes leave the bounds before redundant holes are dropped", minimiser.emission_exact, ctx)
     from . import C07 as _C07b
     run_rule(led, "U20", "a permanent nogood (blocking clause) is stored in its preprocessed form (shared with C07-J10)", _C07b.j10, ctx)
